@@ -249,3 +249,204 @@ def r04n(R):
             'the item\'s code is appended before the rest of the list is '
             'compiled: the order of the loop is reversed',
             path=path_text(p) if p else None)
+
+
+# ------------------------------------------------------------------ R16.k
+PARSE = 'bardolph.parser.parse'
+
+
+class _NodeLike:
+    """a CFG node seen as if it tested the expression w"""
+
+    def __init__(self, node, w):
+        self._n, self.ast, self.kind = node, w, 'cond'
+        self.id, self.succs = node.id, node.succs
+
+    def calls(self):
+        return [x for x in ast.walk(self.ast) if isinstance(x, ast.Call)]
+
+    def exprs(self):
+        return [self.ast]
+
+
+def _token_text_expr(e):
+    from ..tokstate import TOKEN_EXPRS
+    if isinstance(e, ast.Attribute) and e.attr == 'content' \
+            and norm(e.value) in TOKEN_EXPRS:
+        return True
+    if isinstance(e, ast.Call) and norm(e.func) == 'str' and e.args \
+            and norm(e.args[0]) in TOKEN_EXPRS:
+        return True
+    return norm(e) in TOKEN_EXPRS
+
+
+@rule('R16.k', ('C16', 'C19', 'C18'), 'where a quoted string is an '
+      'acceptable value, the parser does not decide on the text of the token '
+      'alone', floor=3,
+      decides='a quoted string may contain any characters: "-", "{", "[" or '
+              '"all" in quotes is the string, not the mark or keyword (the '
+              'lexer strips the quotes, so the text is the same)')
+def r16k(R):
+    from ..tokstate import TokState
+    A = R.A
+    ts = R.A._memo.get('tokstate') or TokState(A)
+    R.A._memo['tokstate'] = ts
+    # functions through which the current token can be taken as a string
+    # constant: everything that reaches the constant / string readers
+    readers = [g for g in A.repo.all_functions('bardolph.parser')
+               if g.name in ('_current_constant', '_current_literal',
+                             '_current_str')]
+    reach = set(readers)
+    changed = True
+    while changed:
+        changed = False
+        for g in A.repo.all_functions('bardolph.parser'):
+            if g in reach:
+                continue
+            if any(t in reach for t in A.rs.callees(g)):
+                reach.add(g)
+                changed = True
+    n_sites = 0
+    for f in A.repo.all_functions('bardolph.parser'):
+        if f.module.name.endswith(('.token', '.lex')):
+            continue
+        cfg = A.cfg(f)
+        for n in cfg.nodes:
+            comps = []
+            for e in n.exprs():
+                for x in ast.walk(e):
+                    if isinstance(x, ast.Compare) and len(x.ops) == 1:
+                        l, r = x.left, x.comparators[0]
+                        for a, b in ((l, r), (r, l)):
+                            if _token_text_expr(a) and isinstance(b, ast.Constant) \
+                                    and isinstance(b.value, str) and b.value:
+                                comps.append((x, b.value))
+            if not comps:
+                continue
+            # is the token afterwards offered to something that takes a string?
+            later = cfg.reachable_from([m for m, _l in n.succs])
+            takes_string = any(t in reach for m in later for c in m.calls()
+                               for t in A.callees(f, c))
+            if not takes_string:
+                continue
+            st = ts.state_at(f, n)
+
+            def guarded(x):
+                # `<class test> and <text test>` inside one expression (an
+                # assignment of the flag): the earlier conjunct is a test of
+                # the token class that excludes strings
+                for e in n.exprs():
+                    for b in ast.walk(e):
+                        if isinstance(b, ast.BoolOp) and isinstance(b.op, ast.And):
+                            for i, v in enumerate(b.values):
+                                if any(y is x for y in ast.walk(v)):
+                                    for w in b.values[:i]:
+                                        t = ts._flag_test(f, _NodeLike(n, w)) \
+                                            if isinstance(w, ast.Name) else \
+                                            ts.test_of(f, _NodeLike(n, w))
+                                        if t and t[1] and 'LITERAL_STRING' not in t[0]:
+                                            return True
+                return False
+            # the token was already offered to the constant reader and was
+            # not a constant (`value = self._current_constant()` ...
+            # `value is None` on every path here): it is not a string
+            not_constant = False
+            for atom, truth in A.path_facts(f, n):
+                if truth and atom.endswith(' is None'):
+                    v = atom[:-len(' is None')]
+                    binds = [k.ast for k in cfg.nodes if k.kind == 'stmt'
+                             and isinstance(k.ast, ast.Assign)
+                             and any(norm(t) == v for t in k.ast.targets)
+                             and n in cfg.reachable_from([m for m, _l in k.succs])]
+                    if any(not isinstance(b.value, ast.Call) for b in binds):
+                        continue
+                    if binds and all(any(t in readers for t in A.callees(f, b.value))
+                                     for b in binds):
+                        not_constant = True
+            for x, lit in comps:
+                n_sites += 1
+                R.check(f, norm(x), st is None or 'LITERAL_STRING' not in st
+                        or guarded(x) or not_constant,
+                        'this test looks at the text of the current token only, '
+                        'and the token can be a quoted string here: "%s" in '
+                        'quotes is taken for the %s %s, so a script that '
+                        'prints / assigns / names a light with that string is '
+                        'rejected or does something else' % (
+                            lit, 'mark' if not lit.isalpha() else 'keyword', lit),
+                        line=x.lineno)
+    if n_sites < 3:
+        raise AnalysisError('only %d text comparisons in value positions' % n_sites)
+
+
+# ------------------------------------------------------------------ R02.j
+@rule('R02.j', ('C02', 'C16', 'C06'), 'a compile-time constant is pushed as a '
+      'value (PUSHQ), whatever its Python type', floor=1,
+      decides='curly braces round a single value - also a string or a macro '
+              'holding a string - leave the value unchanged')
+def r02j(R):
+    from ..const import EnumVal
+    A = R.A
+    rv = A.func(PARSE, 'Parser._rvalue')
+    # the local that says "the value is a constant"
+    quoted = [n for n in walk_own(rv.node) if isinstance(n, ast.Assign)
+              and isinstance(n.targets[0], ast.Name)
+              and isinstance(A.try_fold(n.value, rv), EnumVal)
+              and A.try_fold(n.value, rv).member == 'MOVEQ']
+    if not quoted:
+        raise AnalysisError('Parser._rvalue: the MOVE / MOVEQ choice was not found')
+    var = quoted[0].targets[0].id
+    dest = rv.params[1] if len(rv.params) > 1 else 'dest'
+    nodes = A.nodes_under(rv, {dest: EnumVal('OpCode', 'PUSH'),
+                               var: EnumVal('OpCode', 'MOVEQ')})
+    by_type = [c for n in nodes for c in n.calls()
+               if 'CodeGen.push' in A.callee_names(rv, c)]
+    pushq = [c for n in nodes for call, ops in A.emission_sites(rv)
+             if call in n.calls() for c in [call]
+             if any(op == 'PUSHQ' for op, _a in ops)]
+    R.check(rv, 'constant operand of an expression -> PUSHQ',
+            bool(pushq) and not by_type,
+            'a constant that is pushed for an enclosing expression goes '
+            'through CodeGen.push(), which quotes numbers only: a string '
+            'constant (`{"abc"}`, a macro holding a string) is emitted as '
+            'PUSH "abc", the VM looks up a variable of that name, pushes None '
+            'and stops')
+
+
+# ------------------------------------------------------------------ R19.i
+# statement keywords that cannot be the one-statement body of `define NAME
+# <command>` (one line of reason each)
+NOT_A_BODY = {
+    'DEFINE': 'definitions are not nested',
+    'BREAK': 'only meaningful inside a loop of the same body',
+    'RETURN': 'a body that only returns is written with begin ... end',
+    'MARK': 'not a keyword', 'NAME': 'a call: decided by has_routine',
+    'NULL': 'not a keyword',
+}
+
+
+@rule('R19.i', ('C19', 'C01', 'C16'), 'every command keyword starts a '
+      'one-statement routine body: the set behind `define NAME <command>` '
+      'agrees with the statement dispatch table', floor=10,
+      decides='`define rule println "---"` / `define nl println` define '
+              'routines that write their text when called, as the same '
+              'definitions with print or printf do')
+def r19i(R):
+    from ..tokstate import TokState
+    A = R.A
+    ts = R.A._memo.get('tokstate') or TokState(A)
+    R.A._memo['tokstate'] = ts
+    keys = set()
+    for _f, ms in ts._dispatch.items():
+        keys |= set(ms)
+    tt = A.cls('bardolph.parser.token', 'TokenTypes')
+    ie = tt.methods.get('is_executable')
+    if ie is None:
+        raise AnalysisError('TokenTypes.is_executable not found')
+    ex = set(n.attr for n in ast.walk(ie.node) if isinstance(n, ast.Attribute)
+             and isinstance(n.value, ast.Name) and n.value.id == 'TokenTypes')
+    for k in sorted(keys - set(NOT_A_BODY)):
+        R.check(ie, 'TokenTypes.%s starts a routine body' % k, k in ex,
+                'the statement keyword %s has a handler in the dispatch table '
+                'but is not in the set that makes `define NAME %s ...` a '
+                'routine: the definition is taken for a macro and rejected '
+                '("Macro needs constant")' % (k.lower(), k.lower()))
